@@ -232,7 +232,8 @@ if __name__ == "__main__":
     groups = [g for g in GROUPS if os.path.exists(os.path.join(VERIF, "props", g, "exec.cpp"))]
     with ThreadPoolExecutor(max_workers=4) as ex:
         futs = {g: ex.submit(build_group, g, repo, lambda m: print("[build]", m, flush=True)) for g in groups}
-        for g, f in futs.items():
+        ffuts = {g: ex.submit(build_fuzz, g, repo, lambda m: print("[build]", m, flush=True)) for g in FUZZ_GROUPS if g in groups}
+        for g, f in list(futs.items()) + [(g + "-fuzz", f) for g, f in ffuts.items()]:
             try:
                 print("[build] %s -> %s" % (g, f.result()), flush=True)
             except Exception as e:  # noqa
